@@ -248,6 +248,24 @@ def rule_r3(ctx) -> List[R.Inst]:
             if isinstance(sl, ast.Call) and isinstance(sl.func, ast.Name) and sl.args and isinstance(sl.args[0], ast.Subscript):
                 flt[sl.func.id] = C.const_str(sl.args[0].slice)
     want = {"combo_filter": "column", "type_filter": "type"}
+    # each filter is applied whenever it is given: its guard may test only its own presence and must not hang on another's else
+    entangled = []
+    for n in walk_no_nested(fn.node):
+        if isinstance(n, ast.If):
+            own = {x.id for x in ast.walk(n.test) if isinstance(x, ast.Name)} & set(want)
+            for sub in n.orelse:
+                for x in ast.walk(sub):
+                    if isinstance(x, ast.Assign) and unparse(x.targets[0]) == "combos":
+                        used = {y.func.id for y in ast.walk(x.value) if isinstance(y, ast.Call) and isinstance(y.func, ast.Name)} & set(want)
+                        if used and own and not used <= own:
+                            entangled.append((sorted(used)[0], sorted(own)[0], n))
+    if entangled:
+        u, o, node = entangled[0]
+        insts.append(R.viol(rid, "filter-independence", file, node.lineno,
+                            f"'{u}' is applied only in the else-branch of the test for '{o}': when both filters are given the "
+                            f"second is skipped and combinations it should reject are reported", construct=f"{u} under else of {o}"))
+    else:
+        insts.append(R.ok(rid, "filter-independence", file, fn.node.lineno, idiom="each filter is applied under its own presence test"))
     if flt == want:
         insts.append(R.ok(rid, "filter-fields", file, fn.node.lineno, idiom="combo filter on columns, type filter on types"))
     else:
@@ -335,10 +353,63 @@ def rule_r4(ctx) -> List[R.Inst]:
     return insts
 
 
+def rule_r5(ctx) -> List[R.Inst]:
+    """REPEAT: the shift range of each base combo is computed from that combo alone"""
+    M = ctx.M
+    rid = "C20.R5"
+    fn = M.fn(FILTERS + ".PtnFilterCombo.create")
+    file = M.mods[fn.mod].rel
+    loops = [n for n in ast.walk(fn.node) if isinstance(n, ast.For) and "ar_combos" in unparse(n.iter)]
+    if len(loops) != 1:
+        return [R.undec(rid, "repeat-range", file, fn.node.lineno, "per-combo loop of the REPEAT option not found")]
+    lp = loops[0]
+    elem = [t.id for t in ast.walk(lp.target) if isinstance(t, ast.Name)][-1]
+    coll = "ar_combos"
+    insts = []
+    defs = {}
+    for n in ast.walk(lp):
+        if isinstance(n, ast.Assign) and isinstance(n.targets[0], ast.Name):
+            defs[n.targets[0].id] = n
+    for nm, fnname in (("minimum", "min"), ("maximum", "max")):
+        d = defs.get(nm)
+        key = f"repeat:{nm}"
+        if d is None or not (isinstance(d.value, ast.Call) and call_name(d.value) == fnname and d.value.args):
+            insts.append(R.undec(rid, key, file, lp.lineno, f"'{nm}' of the base combo not found"))
+        elif unparse(d.value.args[0]) == elem:
+            insts.append(R.ok(rid, key, file, d.lineno, idiom=f"np.{fnname}({elem}): extent of this base combo"))
+        elif unparse(d.value.args[0]) == coll:
+            insts.append(R.viol(rid, key, file, d.lineno,
+                                f"inside the loop over the base combos the {nm} is taken over ALL of them ('{unparse(d.value)}'): a narrow "
+                                f"combo listed next to a wider one gets the wider one's (smaller) shift range and allowed shifts go missing",
+                                construct=unparse(d)))
+        else:
+            insts.append(R.undec(rid, key, file, d.lineno, f"{nm} computed from '{unparse(d.value.args[0])}'"))
+    fr, dl = defs.get("freedom"), defs.get("freedom_delta")
+    if fr is not None and sym.same_formula(fr.value, "keys - maximum + minimum"):
+        insts.append(R.ok(rid, "repeat:freedom", file, fr.lineno, idiom="number of shifts = keys - max + min"))
+    else:
+        insts.append((R.viol if fr is not None and sym.only_modelled(fr.value, {"keys", "maximum", "minimum"}) else R.undec)(
+            rid, "repeat:freedom", file, (fr or lp).lineno, "a combo spanning [min, max] fits keys - max + min positions",
+            construct=unparse(fr) if fr is not None else ""))
+    if dl is not None and sym.canon(dl.value, lambda n: "ARANGE" if isinstance(n, ast.Call) and call_name(n) == "arange" and
+                                    unparse(n.args[0]) == "freedom" else None).same(sym.parse("ARANGE - minimum")):
+        insts.append(R.ok(rid, "repeat:shifts", file, dl.lineno, idiom="shifts = 0..freedom-1 minus min (left-most placement first)"))
+    else:
+        insts.append(R.undec(rid, "repeat:shifts", file, (dl or lp).lineno, "shift list not recognised"))
+    app = [n for n in ast.walk(lp) if isinstance(n, ast.Call) and call_name(n) == "append" and n.args]
+    if app and elem in {x.id for x in ast.walk(app[0].args[0]) if isinstance(x, ast.Name)} and "freedom_delta" in unparse(app[0].args[0]):
+        insts.append(R.ok(rid, "repeat:apply", file, app[0].lineno, idiom=f"{elem} + shifts"))
+    else:
+        insts.append(R.viol(rid, "repeat:apply", file, (app[0] if app else lp).lineno,
+                            "each base combo must be repeated at its own shifts", construct=unparse(app[0]) if app else ""))
+    return insts
+
+
 SPECS = [
     RuleSpec("C20.R1", rule_r1, 3, "A5", "Pattern.df is always offset-sorted with a positional index; positional unpack and record fields agree"),
     RuleSpec("C20.R2", rule_r2, 5, "A8", "skip grouped notes; the mask that marks is the mask that is appended; window shapes"),
-    RuleSpec("C20.R3", rule_r3, 4, "A7", "chunks are consecutive groups of exactly `size`; full cartesian product; filters on their own fields"),
+    RuleSpec("C20.R3", rule_r3, 5, "A7", "chunks are consecutive groups of exactly `size`; full cartesian product; filters on their own fields"),
+    RuleSpec("C20.R5", rule_r5, 5, "A7", "REPEAT option: shift range computed per base combo"),
     RuleSpec("C20.R4", rule_r4, 7, "A7", "chord filter tests row membership; exclude = negation; option flags distinct bits"),
 ]
 
